@@ -4,7 +4,9 @@ package sim
 
 import (
 	"fmt"
+	"hash/fnv"
 	"reflect"
+	"strings"
 	"sync"
 	"unsafe"
 
@@ -66,9 +68,24 @@ func repoHook(kind int, site string, a interface{}, write bool) {
 		// receive follows and a() says "channel empty"
 		wouldBlock := a.(func() bool)
 		t.Yield(s, KYield, 0, 0) // the window between a capacity check and the operation
-		if wouldBlock() {
+		if !wouldBlock() {
+			return
+		}
+		if strings.HasPrefix(site, "compressor") || goid() != taskGID(t) {
+			// the compressor providers promise never to block (C13): there a channel operation that
+			// would block is the verdict. (A goroutine that is no task just goes on and blocks for real.)
+			if goid() != taskGID(t) {
+				return
+			}
 			t.Yield(s, KWouldBlock, 0, 0)
 			panic(fmt.Sprint("sim: task resumed after would-block at ", site))
+		}
+		// anywhere else (a changed tree may hand work to a goroutine and wait for it) a channel operation
+		// that cannot proceed is a wait like a failed lock probe: probed again when scheduled, and a
+		// deadlock only if nobody can move
+		addr := uint64(fnvString(site))
+		for wouldBlock() {
+			t.Yield(s, KBlocked, addr, 0)
 		}
 	case 3:
 		// auto-inserted probe for a lock type the library's own hooks do not cover (sync.Mutex)
@@ -88,4 +105,10 @@ func repoHook(kind int, site string, a interface{}, write bool) {
 			cmd = t.Yield(s, KBlocked, addr, 1)
 		}
 	}
+}
+
+func fnvString(x string) uint32 {
+	h := fnv.New32a()
+	h.Write([]byte(x))
+	return h.Sum32() | 1
 }
